@@ -41,23 +41,36 @@ HEADER_X = ("From Coq Require Import List Arith Bool.\nImport ListNotations.\n"
 # the OS layer) in thread 1 (and 3), a synchronized reader that does not flush (read_tty_all) in
 # thread 2, released at EVERY point of the query function's run (its park points are the lock
 # operations: before / between / after the two reads in particular)
-XFUNCS = {"name_version": "get_terminal_name_version()", "fg_bg": "get_fg_bg_colors()", "cell_size": "get_cell_size()"}
+XFUNCS = {"name_version": "get_terminal_name_version()", "fg_bg": "get_fg_bg_colors()", "cell_size": "get_cell_size()",
+          "query": "query_terminal(DA1)"}
+XGETTERS = ["name_version", "fg_bg", "cell_size"]
+XREADERS = {"xr": "read_tty_all()", "xs": "UrwidImageScreen.get_available_raw_input() [started screen]"}
 X_A_STEPS = 26  # more than the lock operations of the longest query function
 
 
 def x_cases(rng, quick):
     cases = []
-    for f in XFUNCS:
+    for f in XGETTERS:
         base = {"xchg": f, "threads": [[1, 0, [["xq", f]]], [2, 0, [["xr", "read_tty_all"]]]]}
         for k in range(X_A_STEPS + 1):
             cases.append(dict(base, sched=[1] * k + [2] * 6))
         for _ in range(4 if quick else 60):
             cases.append(dict(base, sched=[rng.choice([1, 1, 2]) for _ in range(rng.randint(8, 34))]))
-    # two different queries racing with each other and with the reader
-    for _ in range(12 if quick else 200):
-        f, g = rng.sample(sorted(XFUNCS), 2)
+    # urwid's event loop (thread B: the input reader of a STARTED UrwidImageScreen on the same
+    # terminal) against a query of thread A, released at every lock operation of A — in
+    # particular between the write of the request and the read of the reply
+    for f, steps in (("query", 16), ("name_version", X_A_STEPS)):
+        base = {"xchg": "screen:" + f, "threads": [[1, 0, [["xq", f]]], [2, 0, [["xs"]]]]}
+        for k in range(steps + 1):
+            cases.append(dict(base, sched=[1] * k + [2] * 6))
+        for _ in range(3 if quick else 60):
+            cases.append(dict(base, sched=[rng.choice([1, 1, 2]) for _ in range(rng.randint(6, 30))]))
+    # two different queries racing with each other and with a reader
+    for i in range(12 if quick else 200):
+        f, g = rng.sample(XGETTERS, 2)
+        rd = ["xs"] if i % 3 == 2 else ["xr", "read_tty_all"]
         cases.append({"xchg": f + "+" + g,
-                      "threads": [[1, 0, [["xq", f]]], [2, 0, [["xr", "read_tty_all"]]], [3, 0, [["xq", g]]]],
+                      "threads": [[1, 0, [["xq", f]]], [2, 0, [rd]], [3, 0, [["xq", g]]]],
                       "sched": [rng.choice([1, 1, 2, 3, 3]) for _ in range(rng.randint(10, 50))]})
     return cases
 
@@ -87,12 +100,12 @@ def evaluate_x(cases, tag="c14q"):
 
 def describe_x(c, r=None):
     who = {1: "A", 2: "B", 3: "C"}
-    t = " | ".join("%s: %s" % (who[th[0]], XFUNCS[th[2][0][1]] if th[2][0][0] == "xq" else "read_tty_all()")
+    t = " | ".join("%s: %s" % (who[th[0]], XFUNCS[th[2][0][1]] if th[2][0][0] == "xq" else XREADERS[th[2][0][0]])
                    for th in c["threads"])
     s = "threads " + t + " ; schedule " + " ".join(who[x] for x in c["sched"])
     if r and r.get("xres"):
         got = r["xres"].get("2")
-        s += " ; B's read_tty_all() returned %s" % (repr(bytes.fromhex(got)) if got is not None else None)
+        s += " ; B's reader returned %s" % (repr(bytes.fromhex(got)) if got is not None else None)
         s += " ; " + ", ".join("%s returned %s" % (who[int(k)], v) for k, v in sorted(r["xres"].items()) if k != "2")
     return s
 
@@ -540,7 +553,10 @@ def run(ctx):
                 "EXCHANGES: the real get_terminal_name_version / get_fg_bg_colors / get_cell_size (first, uncached call; "
                 "scripted FIFO terminal on a pty, in the OS layer) in thread A, read_tty_all() in thread B released after "
                 "exactly k = 0..26 lock operations of A (every point of A's run, in particular between its two reads), "
-                "plus random interleavings and two different queries racing with the reader; the observed terminal I/O "
+                "plus random interleavings and two different queries racing with the reader; the same with B = the input "
+                "reader of a STARTED UrwidImageScreen on that terminal (urwid's event loop) against query_terminal(DA1) / "
+                "get_terminal_name_version, released at every lock operation of A (between request write and reply read "
+                "in particular); the observed terminal I/O "
                 "(who wrote a request, who read how many bytes, who flushed) is judged in Coq: every byte read belongs "
                 "to the reader's own reply, nothing is left (non-trivial: the reader had to wait).",
         "samples": [describe(c) for c in cases[:1] + cases[len(CORPUS):len(CORPUS) + 3]] + [describe_x(c) for c in xcases[18:19]],
